@@ -26,7 +26,6 @@ import (
 	"github.com/AdguardTeam/AdGuardDNS/internal/profiledb"
 	"github.com/AdguardTeam/AdGuardDNS/verif/vkit"
 	"github.com/miekg/dns"
-	"golang.org/x/crypto/bcrypt"
 )
 
 func pfx(s string) netip.Prefix { return netip.MustParsePrefix(s) }
@@ -162,20 +161,14 @@ func ttlVariant(i int) time.Duration {
 	return []time.Duration{0, 10 * time.Second, 1500 * time.Millisecond, 86400*time.Second + 7}[i%nTTL]
 }
 
-var pwHashes [][]byte
-
-func pwHash(i int) []byte {
-	if pwHashes == nil {
-		for _, pw := range []string{"secret-one", "другой пароль"} {
-			h, err := bcrypt.GenerateFromPassword([]byte(pw), bcrypt.MinCost)
-			if err != nil {
-				panic(err)
-			}
-			pwHashes = append(pwHashes, h)
-		}
-	}
-	return pwHashes[i%len(pwHashes)]
+// fixed bcrypt hashes (cost 4) of probePasswords[0] and [1]: the child
+// process of part 5 must build byte-identical records.
+var pwHashes = [][]byte{
+	[]byte("$2a$04$X.G2b3Ac0F8z06ngDs/lr.KcerLR3tsSQ1ECVNnlGoTkR51tVB02y"),
+	[]byte("$2a$04$5ct3pU2GbGmqnTTutOp0..xllPJDMrgI6yiKe0Whw/MBHTbepJpNa"),
 }
+
+func pwHash(i int) []byte { return pwHashes[i%len(pwHashes)] }
 
 var probePasswords = []string{"secret-one", "другой пароль", "wrong"}
 
@@ -470,6 +463,8 @@ func (c *cmpCtx) compareValues(path string, a, b reflect.Value) {
 		}
 	}
 }
+
+func reflectOf(v any) reflect.Value { return reflect.ValueOf(v) }
 
 func nilStr(v reflect.Value) string {
 	if v.IsNil() {
